@@ -136,6 +136,32 @@ def enumerate_points(scen):
     return p1, q1
 
 
+def _deliberate_translation(raised, inj):
+    """True if `raised` replaced the injected failure through an explicit `raise` statement of thejoker itself inside the handler of
+    that failure (e.g. `except Exception: raise ValueError("Invalid file name")`): the failure still reaches the caller, in
+    thejoker's words.  An error produced by a CALL made while the failure was being handled (a clean-up step) is not that."""
+    import dis
+
+    ctx, seen = raised.__context__, set()
+    while ctx is not None and ctx is not inj and id(ctx) not in seen:
+        seen.add(id(ctx))
+        ctx = ctx.__context__ or ctx.__cause__
+    if ctx is not inj:
+        return False
+    tb = raised.__traceback__
+    if tb is None:
+        return False
+    while tb.tb_next is not None:
+        tb = tb.tb_next
+    code = tb.tb_frame.f_code
+    if not os.path.realpath(code.co_filename).startswith(os.path.realpath(os.path.join(build.REPO, "thejoker"))):
+        return False
+    for ins in dis.get_instructions(code):
+        if ins.offset == tb.tb_lasti:
+            return ins.opname == "RAISE_VARARGS"
+    return False
+
+
 def is_cleanup_unlink(point):
     return point[1].endswith("wrapper") and point[4] in ("unlink", "remove")
 
@@ -163,6 +189,17 @@ def run_fault(scen, point, excname, part, second=None):
     # (i) the failure reaches the caller
     if raised is None:
         part.violation(case, f"a {excname} raised inside {point[1]} (call to {point[4]}) was swallowed: the API returned normally")
+    else:
+        # ... and it is THAT failure the caller sees (itself, or as the explicit cause of a translated error) - not an unrelated
+        # error raised by a clean-up step while the real one was being handled
+        inj = _INJ.exc
+        chain, cur = [], raised
+        while cur is not None and id(cur) not in [id(x) for x in chain]:
+            chain.append(cur)
+            cur = cur.__cause__
+        if inj is not None and not any(x is inj for x in chain) and not _deliberate_translation(raised, inj):
+            part.violation(case, f"the {excname} raised inside {point[1]} (call to {point[4]}) does not reach the caller: the caller gets "
+                           f"{type(raised).__name__}: {str(raised)[:120]} (the real failure survives at most as implicit context)")
     # (ii) no temporary file left behind
     leaks = e.leaks()
     if leaks and not is_cleanup_unlink(point):
